@@ -223,3 +223,9 @@ def stale_entry_unit(auto_on_at_entry):
 
 stale_entry_unit(True)
 stale_entry_unit(False)
+
+
+# the caching protocol this property's statement rests on (values and densities "after updating")
+from contracts.c01 import register_cache_core  # noqa: E402
+
+register_cache_core("C17")
